@@ -12,7 +12,7 @@
    worker threads.                                                                    *)
 EXTENDS SplineRel, TLC, Json, IOUtils
 
-CONSTANTS NSet, GapsOf(_), YsOf(_), OffSet, LongN, Q, Emit
+CONSTANTS NSet, GapsOf(_), YsOf(_), OffsOf(_), LongN, Q, Emit
 VARIABLES c, ph
 vars == <<c, ph>>
 
@@ -30,7 +30,7 @@ LongK(n, v) == Knots(-v, [i \in 1..(n - 1) |-> 1 + ((i * v) % 3)])
 LongY(n, v) == [i \in 1..n |-> IF i = n /\ v % 2 = 1 THEN ((v + 7) % 7) - 3 ELSE ((i * i * (v + 2) + 5 * i - 6 + v) % 7) - 3]
 
 Init == /\ ph = 0
-        /\ \/ \E n \in NSet : \E g \in [1..(n - 1) -> GapsOf(n)], o \in OffSet, y \in [1..n -> YsOf(n)] :
+        /\ \/ \E n \in NSet : \E g \in [1..(n - 1) -> GapsOf(n)], o \in OffsOf(n), y \in [1..n -> YsOf(n)] :
                 /\ Hash(n, g, o, y) = Slice
                 /\ c = [K |-> Knots(o, g), Y |-> y]
            \/ \E n \in LongN, v \in 0..3 : Slice = 0 /\ c = [K |-> LongK(n, v), Y |-> LongY(n, v)]
